@@ -75,6 +75,11 @@ CLAIMED = {
   ref="DESIGN.md §6 C12",
   note="Partial: f32 inputs are compared with the model on boundary/special/random values but have no rounding theorem; dithering is excluded by the property; the sub-sampled and bi-planar encoders are covered by oracles only (round trip, bounds, independence of input colour format / pitch).",
   tech="Coq proof (exhaustive finite sweeps over an executable IEEE-754 model) + differential execution + round-trip/independence oracles"),
+ "C01": dict(
+  text="Coq theorems on models in which every unwrap, debug assertion and unchecked u64 operation of the layout code is a possible failure: for every u32 x u32 surface the inner products of the byte-length computation fit u64 and the length is the rule's value or None exactly on overflow; deriving the layout of ANY header equals 'which object is described' + 'does the total fit in u64' (so the only failures are the documented errors); when a layout is produced all its iterators and accessors succeed below 2^64; every header the parser accepts is well-formed with fields below 2^32; a full decode of a non-empty surface from a reader that is too short or fails before the end of the surface never returns Ok, and non-I/O errors leave the reader in place. The implementation is exercised by a totality oracle on generated hostile files (debug and release builds).",
+  ref="DESIGN.md §6 C01",
+  note="Partial: absence of panics in the Rust code itself (indexing, slicing, casts in the pixel paths) is established by the oracle on generated inputs, not proved; the theorems cover the arithmetic and protocol logic that the models carry. Non-termination is observed only as a 10 s per-call timeout.",
+  tech="Coq proof (checked-arithmetic refinement, induction over effect scripts) + implementation-only totality oracle (catch_unwind, debug+release)"),
  "C19": dict(
   text="Coq theorems over the implementation's regenerated tables: for every header from which a format is detected (all valid DXGI codes x alpha modes incl. the premultiplied special cases, every FourCC, every mask pixel format; all other fields symbolic) the pixel layout derived from the header equals the pixel layout of the detected format, so layouts computed with or without a decoder coincide; every implemented format's pixel layout is within the bounds the layout/script theorems assume; size multiples are advertised exactly for the bi-planar formats and equal their sub-sampling; advertised bits per pixel are exact for fixed-size pixels and an upper bound per whole block otherwise. Observed behaviour is tied to the tables by differential execution: header detection sweep here, bytes consumed by decoding in C06, sizes accepted by encoding in C10. The dithering clauses are checked by an implementation-only oracle over all encodable formats.",
   ref="DESIGN.md §6 C19",
